@@ -1033,6 +1033,56 @@ def order_check(kind, c):
                                  "values": [float(a[j]), float(b[j])] if j >= 0 else [len(a), len(b)]},
                     "expected": "the same values whatever was evaluated before",
                     "what": "%s: the values of a pulse depend on which pulses were evaluated before it" % kind}
+    return address_reuse_check(kind, c)
+
+
+def address_reuse_check(kind, c):
+    """state keyed by the IDENTITY of an argument: an ice-model object that lives at the address of a dead one (an
+    ice model written inline in a loop, or created per call by a helper) must be read for what it is.  A pulse is
+    evaluated with a short-lived UniformIce(n1); after it has been collected, UniformIce(n2) objects are created until
+    one lands on the same address; its pulse must equal the pulse of a long-lived UniformIce(n2)."""
+    import gc
+    from pyrex import ice_model as M
+    cls = _classes()[kind]
+    Ei, Ri = float(c["E"]), float(c["R"])
+    psi, t0, times = psi_of(c), t0_of(c), grid(c)
+    ens = (Ei * c["em"], Ei * c["had"])
+    n1, n2 = 1.6, 1.37
+    if not (arz_fits(kind, psi, n1, c["dt"], c["N"], ens) and arz_fits(kind, psi, n2, c["dt"], c["N"], ens)):
+        return None
+
+    def pulse(iceobj):
+        return np.array(cls(times.copy(), mkp(Ei, c["em"], c["had"], c["z"]), psi, Ri, iceobj, t0).values, dtype=float)
+
+    keep = M.UniformIce(n2)
+    ref = pulse(keep)
+    reused = None
+    for attempt in range(10):
+        a = M.UniformIce(n1)
+        addr = id(a)
+        pulse(a)
+        del a
+        gc.collect()
+        pool = []
+        for _ in range(100):
+            o = M.UniformIce(n2)
+            if id(o) == addr:
+                reused = o
+                break
+            pool.append(o)
+        del pool
+        if reused is not None:
+            break
+    if reused is None:
+        return None              # CPython did not hand the address out again: nothing to compare
+    got = pulse(reused)
+    if got.shape != ref.shape or not np.array_equal(got, ref, equal_nan=True):
+        j = int(np.argmax(np.abs(got - ref))) if got.shape == ref.shape else -1
+        return {"observed": {"index of the dead object": n1, "index of the object at its address": n2,
+                             "values": [float(got[j]), float(ref[j])] if j >= 0 else [len(got), len(ref)]},
+                "expected": "the pulse of UniformIce(%g), bitwise as for a long-lived object with the same index" % n2,
+                "what": "%s: an ice-model object created at the address of a collected one is read as the dead object "
+                        "(state keyed by id())" % kind}
     return None
 
 
